@@ -30,6 +30,21 @@ Theorem C07_all_histories : forall (Sf : list vec -> vec) (prior vone : vec) (es
 Proof. exact wf_run. Qed.
 Print Assumptions C07_all_histories.
 
+(* whole sampler passes, as compositions of grammar edits: a composition of moves (data-point moves,
+   prune-regraft, the subtree move, relabel, copy, to/from dict, update) returns exactly the data it was given;
+   a pass that builds a tree from the empty one (unconditional SMC / retained path: NewClone or AddPoint of the
+   k-th point at step k) holds exactly the points its steps added *)
+Theorem C07_moves_conserve : forall Sf prior vone es t t',
+  wf t -> pres Sf prior vone es t -> Forall (fun e => delta e = []) es -> run Sf prior vone es t = Some t' ->
+  wf t' /\ Permutation (points t') (points t).
+Proof. exact moves_conserve. Qed.
+Print Assumptions C07_moves_conserve.
+Theorem C07_build_conserves : forall Sf prior vone es t',
+  pres Sf prior vone es (empty_tree vone) -> run Sf prior vone es (empty_tree vone) = Some t' ->
+  wf t' /\ Permutation (points t') (deltas es).
+Proof. exact build_conserves. Qed.
+Print Assumptions C07_build_conserves.
+
 (* the graft renames clashing names above the maximum of both trees: names stay unique whatever the two
    name sets are (no side condition), and the grafted data arrives exactly once *)
 Theorem C07_graft_with_clashing_labels : forall Sf prior sub par t t',
